@@ -55,6 +55,8 @@ Definition substring_by_char_spec (s : list N) (start : Z) (len : option Z) : li
 Definition length_spec (s : list N) : Z := Z.of_nat (blen s).
 Definition bit_length_spec (s : list N) : Z := (8 * Z.of_nat (blen s))%Z.
 
+Fixpoint map2 {A B C} (f : A -> B -> C) (a : list A) (b : list B) : list C :=
+  match a, b with x :: a', y :: b' => f x y :: map2 f a' b' | _, _ => [] end.
 Definition concat_spec (l r : option (list N)) : option (list N) :=
   match l, r with Some a, Some b => Some (a ++ b) | _, _ => None end.
 
